@@ -108,6 +108,7 @@ def gen_case(rng, index, tier):
     opts, stdin, env_extra, optclass = c01.pick_options(
         L, rng, workdirs, [arg], index, allowed=['none', '--trash-dir', '-v'])
     c01.add_stale(L, rng, [arg], index, p=0.25)
+    c01.add_partial_trash_dirs(L, rng)
     case = L.desc()
     case['kind'] = 'e2e'
     case['args'] = [arg]
